@@ -19,6 +19,7 @@ import (
 	"os"
 	"runtime"
 	"slices"
+	"strings"
 
 	"golang.org/x/tools/go/ssa"
 )
@@ -68,16 +69,88 @@ type deferred struct {
 type frame struct {
 	i                *interpreter
 	g                *vmG
+	depth            int
 	caller           *frame
 	fn               *ssa.Function
 	block, prevBlock *ssa.BasicBlock
-	env              map[ssa.Value]value // dynamic values of SSA variables
+	info             *fnInfo
+	vals             []value // dynamic values of SSA variables, by fnInfo.index
 	locals           []value
 	defers           *deferred
 	result           value
 	panicking        bool
 	panic            interface{}
 	phitemps         []value // temporaries for parallel phi assignment
+}
+
+func (fr *frame) set(key ssa.Value, v value) {
+	fr.vals[fr.info.index[key]] = v
+}
+
+// fnInfo numbers the SSA values of one function (computed once, shared).
+type fnInfo struct {
+	index    map[ssa.Value]int
+	n        int
+	name     string
+	ext      externalFn
+	noCode   bool
+	skipInit bool
+	target   bool // belongs to the code under analysis (reported in the evidence)
+	instrs   int
+}
+
+func (m *Machine) fnInfoOf(fn *ssa.Function) *fnInfo {
+	if fi, ok := m.fnInfos.Load(fn); ok {
+		return fi.(*fnInfo)
+	}
+	fi := &fnInfo{index: map[ssa.Value]int{}}
+	add := func(v ssa.Value) {
+		if _, ok := fi.index[v]; !ok {
+			fi.index[v] = fi.n
+			fi.n++
+		}
+	}
+	for _, p := range fn.Params {
+		add(p)
+	}
+	for _, fv := range fn.FreeVars {
+		add(fv)
+	}
+	for _, l := range fn.Locals {
+		add(l)
+	}
+	for _, b := range fn.Blocks {
+		for _, in := range b.Instrs {
+			if v, ok := in.(ssa.Value); ok {
+				add(v)
+			}
+		}
+	}
+	fi.name = fn.String()
+	for _, b := range fn.Blocks {
+		fi.instrs += len(b.Instrs)
+	}
+	if k, ok := m.fakeNames[fn]; ok {
+		fi.ext = externals[k]
+	} else if fn.Parent() == nil {
+		if ext := externals[fi.name]; ext != nil {
+			fi.ext = ext
+		} else if fn.Blocks == nil {
+			fi.noCode = true
+		} else if fn.Name() == "init" && fn.Pkg != nil && !m.interpretInit(fn.Pkg) {
+			fi.skipInit = true
+		}
+	}
+	pkg := fn.Pkg
+	if pkg == nil && fn.Origin() != nil {
+		pkg = fn.Origin().Pkg
+	}
+	if pkg == nil && fn.Parent() != nil {
+		pkg = fn.Parent().Pkg
+	}
+	fi.target = pkg != nil && strings.HasPrefix(pkg.Pkg.Path(), m.TargetPrefix) && !strings.Contains(pkg.Pkg.Path(), "/zzverif")
+	m.fnInfos.Store(fn, fi)
+	return fi
 }
 
 func (fr *frame) get(key ssa.Value) value {
@@ -98,8 +171,10 @@ func (fr *frame) get(key ssa.Value) value {
 		fr.i.globals[key] = &cell
 		return &cell
 	}
-	if r, ok := fr.env[key]; ok {
-		return r
+	if k, ok := fr.info.index[key]; ok {
+		if r := fr.vals[k]; r != nil {
+			return r
+		}
 	}
 	panic(fmt.Sprintf("get: no value for %T: %v", key, key.Name()))
 }
@@ -175,56 +250,56 @@ func visitInstr(fr *frame, instr ssa.Instruction) continuation {
 				v = zero(instr.X.Type().Underlying().(*types.Chan).Elem())
 			}
 			if instr.CommaOk {
-				fr.env[instr] = tuple{v, ok}
+				fr.set(instr, tuple{v, ok})
 			} else {
-				fr.env[instr] = v
+				fr.set(instr, v)
 			}
 		} else if r, ok := fr.i.run.symUnop(instr.Op, fr.get(instr.X)); ok && instr.Op != token.MUL {
-			fr.env[instr] = r
+			fr.set(instr, r)
 		} else {
-			fr.env[instr] = unop(instr, fr.get(instr.X))
+			fr.set(instr, unop(instr, fr.get(instr.X)))
 		}
 
 	case *ssa.BinOp:
 		x, y := fr.get(instr.X), fr.get(instr.Y)
 		if r, ok := fr.i.run.symBinop(instr.Op, x, y); ok {
-			fr.env[instr] = r
+			fr.set(instr, r)
 		} else {
-			fr.env[instr] = binop(instr.Op, instr.X.Type(), x, y)
+			fr.set(instr, binop(instr.Op, instr.X.Type(), x, y))
 		}
 
 	case *ssa.Call:
 		fn, args := prepareCall(fr, &instr.Call)
-		fr.env[instr] = call(fr.i, fr, instr.Pos(), fn, args)
+		fr.set(instr, call(fr.i, fr, instr.Pos(), fn, args))
 
 	case *ssa.ChangeInterface:
-		fr.env[instr] = fr.get(instr.X)
+		fr.set(instr, fr.get(instr.X))
 
 	case *ssa.ChangeType:
-		fr.env[instr] = fr.get(instr.X) // (can't fail)
+		fr.set(instr, fr.get(instr.X)) // (cannot fail)
 
 	case *ssa.Convert:
 		x := fr.get(instr.X)
 		if sx, ok := x.(symInt); ok {
 			if r := fr.i.run.symConv(instr.Type(), sx); r != nil {
-				fr.env[instr] = r
+				fr.set(instr, r)
 				break
 			}
 			x = fr.i.run.concretize(sx)
 		}
-		fr.env[instr] = conv(instr.Type(), instr.X.Type(), x)
+		fr.set(instr, conv(instr.Type(), instr.X.Type(), x))
 
 	case *ssa.SliceToArrayPointer:
-		fr.env[instr] = sliceToArrayPointer(instr.Type(), instr.X.Type(), fr.get(instr.X))
+		fr.set(instr, sliceToArrayPointer(instr.Type(), instr.X.Type(), fr.get(instr.X)))
 
 	case *ssa.MakeInterface:
-		fr.env[instr] = iface{t: instr.X.Type(), v: fr.get(instr.X)}
+		fr.set(instr, iface{t: instr.X.Type(), v: fr.get(instr.X)})
 
 	case *ssa.Extract:
-		fr.env[instr] = fr.get(instr.Tuple).(tuple)[instr.Index]
+		fr.set(instr, fr.get(instr.Tuple).(tuple)[instr.Index])
 
 	case *ssa.Slice:
-		fr.env[instr] = slice(fr.get(instr.X), fr.i.run.concreteOrNil(fr.get(instr.Low)), fr.i.run.concreteOrNil(fr.get(instr.High)), fr.i.run.concreteOrNil(fr.get(instr.Max)))
+		fr.set(instr, slice(fr.get(instr.X), fr.i.run.concreteOrNil(fr.get(instr.Low)), fr.i.run.concreteOrNil(fr.get(instr.High)), fr.i.run.concreteOrNil(fr.get(instr.Max))))
 
 	case *ssa.Return:
 		switch len(instr.Results) {
@@ -292,17 +367,17 @@ func visitInstr(fr *frame, instr ssa.Instruction) continuation {
 		fr.i.sched.spawn(fr, fn, args, fr.i.prog.Fset.Position(instr.Pos()).String())
 
 	case *ssa.MakeChan:
-		fr.env[instr] = newChan(int(asInt64(fr.get(instr.Size))))
+		fr.set(instr, newChan(int(asInt64(fr.get(instr.Size)))))
 
 	case *ssa.Alloc:
 		var addr *value
 		if instr.Heap {
 			// new
 			addr = new(value)
-			fr.env[instr] = addr
+			fr.set(instr, addr)
 		} else {
 			// local
-			addr = fr.env[instr].(*value)
+			addr = fr.get(instr).(*value)
 		}
 		*addr = zero(mustDeref(instr.Type()))
 
@@ -312,7 +387,7 @@ func visitInstr(fr *frame, instr ssa.Instruction) continuation {
 		for i := range slice {
 			slice[i] = zero(tElt)
 		}
-		fr.env[instr] = slice[:asInt64(fr.i.run.concrete(fr.get(instr.Len)))]
+		fr.set(instr, slice[:asInt64(fr.i.run.concrete(fr.get(instr.Len)))])
 
 	case *ssa.MakeMap:
 		var reserve int64
@@ -322,28 +397,28 @@ func visitInstr(fr *frame, instr ssa.Instruction) continuation {
 		if !fitsInt(reserve, fr.i.sizes) {
 			panic(fmt.Sprintf("ssa.MakeMap.Reserve value %d does not fit in int", reserve))
 		}
-		fr.env[instr] = makeMap(instr.Type().Underlying().(*types.Map).Key(), reserve)
+		fr.set(instr, makeMap(instr.Type().Underlying().(*types.Map).Key(), reserve))
 
 	case *ssa.Range:
-		fr.env[instr] = rangeIter(fr.i, fr.get(instr.X), instr.X.Type())
+		fr.set(instr, rangeIter(fr.i, fr.get(instr.X), instr.X.Type()))
 
 	case *ssa.Next:
-		fr.env[instr] = fr.get(instr.Iter).(iter).next()
+		fr.set(instr, fr.get(instr.Iter).(iter).next())
 
 	case *ssa.FieldAddr:
-		fr.env[instr] = &(*fr.get(instr.X).(*value)).(structure)[instr.Field]
+		fr.set(instr, &(*fr.get(instr.X).(*value)).(structure)[instr.Field])
 
 	case *ssa.Field:
-		fr.env[instr] = fr.get(instr.X).(structure)[instr.Field]
+		fr.set(instr, fr.get(instr.X).(structure)[instr.Field])
 
 	case *ssa.IndexAddr:
 		x := fr.get(instr.X)
 		idx := fr.i.run.concrete(fr.get(instr.Index))
 		switch x := x.(type) {
 		case []value:
-			fr.env[instr] = &x[asInt64(idx)]
+			fr.set(instr, &x[asInt64(idx)])
 		case *value: // *array
-			fr.env[instr] = &(*x).(array)[asInt64(idx)]
+			fr.set(instr, &(*x).(array)[asInt64(idx)])
 		default:
 			panic(fmt.Sprintf("unexpected x type in IndexAddr: %T", x))
 		}
@@ -354,15 +429,15 @@ func visitInstr(fr *frame, instr ssa.Instruction) continuation {
 
 		switch x := x.(type) {
 		case array:
-			fr.env[instr] = x[asInt64(idx)]
+			fr.set(instr, x[asInt64(idx)])
 		case string:
-			fr.env[instr] = x[asInt64(idx)]
+			fr.set(instr, x[asInt64(idx)])
 		default:
 			panic(fmt.Sprintf("unexpected x type in Index: %T", x))
 		}
 
 	case *ssa.Lookup:
-		fr.env[instr] = lookup(instr, fr.get(instr.X), fr.i.run.concreteDeep(fr.get(instr.Index)))
+		fr.set(instr, lookup(instr, fr.get(instr.X), fr.i.run.concreteDeep(fr.get(instr.Index))))
 
 	case *ssa.MapUpdate:
 		m := fr.get(instr.Map)
@@ -376,20 +451,20 @@ func visitInstr(fr *frame, instr ssa.Instruction) continuation {
 		}
 
 	case *ssa.TypeAssert:
-		fr.env[instr] = typeAssert(fr.i, instr, fr.get(instr.X).(iface))
+		fr.set(instr, typeAssert(fr.i, instr, fr.get(instr.X).(iface)))
 
 	case *ssa.MakeClosure:
 		var bindings []value
 		for _, binding := range instr.Bindings {
 			bindings = append(bindings, fr.get(binding))
 		}
-		fr.env[instr] = &closure{instr.Fn.(*ssa.Function), bindings}
+		fr.set(instr, &closure{instr.Fn.(*ssa.Function), bindings})
 
 	case *ssa.Phi:
 		log.Fatal("unreachable") // phis are processed at block entry
 
 	case *ssa.Select:
-		fr.env[instr] = doSelect(fr, instr)
+		fr.set(instr, doSelect(fr, instr))
 
 	default:
 		panic(fmt.Sprintf("unexpected instruction: %T", instr))
@@ -475,57 +550,52 @@ func callSSA(i *interpreter, caller *frame, callpos token.Pos, fn *ssa.Function,
 		}
 		defer fmt.Fprintf(os.Stderr, "Leaving %s%s.\n", fn, suffix)
 	}
+	fi := i.fnInfoOf(fn)
 	fr := &frame{
 		i:      i,
 		caller: caller, // for panic/recover
 		fn:     fn,
+		info:   fi,
 	}
 	if caller != nil {
 		fr.g = caller.g
+		fr.depth = caller.depth + 1
 	} else {
 		fr.g = i.sched.current
 	}
-	if k, ok := i.fakeNames[fn]; ok {
-		return externals[k](fr, args)
+	if fi.ext != nil {
+		return fi.ext(fr, args)
 	}
-	if fn.Parent() == nil {
-		name := fn.String()
-		if ext := externals[name]; ext != nil {
-			return ext(fr, args)
-		}
-		if fn.Blocks == nil {
-			panic(vmUnsupported("no code for function: " + name))
-		}
-		if fn.Name() == "init" && fn.Pkg != nil && !i.interpretInit(fn.Pkg) {
-			return nil
-		}
+	if fi.noCode {
+		panic(vmUnsupported("no code for function: " + fi.name))
 	}
-	if g := fr.g; g != nil {
-		g.depth++
-		if g.depth > i.maxDepth {
-			panic(vmLimit{"depth"})
-		}
-		defer func() { g.depth-- }()
+	if fi.skipInit {
+		return nil
 	}
-	i.run.functionEntered(fn)
+	if fr.depth > i.maxDepth {
+		panic(vmLimit{"depth"})
+	}
+	if fi.target {
+		i.run.functionEntered(fi)
+	}
 
 	// generic function body?
 	if fn.TypeParams().Len() > 0 && len(fn.TypeArgs()) == 0 {
 		panic("interp requires ssa.BuilderMode to include InstantiateGenerics to execute generics")
 	}
 
-	fr.env = make(map[ssa.Value]value)
+	fr.vals = make([]value, fi.n)
 	fr.block = fn.Blocks[0]
 	fr.locals = make([]value, len(fn.Locals))
 	for i, l := range fn.Locals {
 		fr.locals[i] = zero(mustDeref(l.Type()))
-		fr.env[l] = &fr.locals[i]
+		fr.set(l, &fr.locals[i])
 	}
 	for i, p := range fn.Params {
-		fr.env[p] = args[i]
+		fr.set(p, args[i])
 	}
 	for i, fv := range fn.FreeVars {
-		fr.env[fv] = env[i]
+		fr.set(fv, env[i])
 	}
 	for fr.block != nil {
 		runFrame(fr)
@@ -641,7 +711,7 @@ func executePhis(fr *frame) []ssa.Instruction {
 			fr.phitemps = append(fr.phitemps, fr.get(phi.Edges[predIndex]))
 		}
 		for i, phi := range phis {
-			fr.env[phi.(*ssa.Phi)] = fr.phitemps[i]
+			fr.set(phi.(*ssa.Phi), fr.phitemps[i])
 		}
 	}
 	return nonPhis
